@@ -502,3 +502,446 @@ c05_rule = ("adversarial enumeration: 17 binary operators x 9x9 operand type pai
             "unary/index/slice/array-element/condition/call-target/arity positions over all type pairs; extreme literals, shift counts, float specials, builtin misuse; "
             "17 statement forms as tail of function / block / while body / for body / branches / top level; seeded random sessions with 25% type confusion. "
             "non-trivial = contains an operator, index or call; verdict = the real run ends in a value or a documented runtime error (no panic, no hang, no abort)")
+
+
+# =============================================================== C08: a session survives errors
+
+BOOM = assign("boom", fn(["d", "k"], ife(bin_(">", N("d"), I(0)), call("boom", bin_("-", N("d"), I(1)), N("k")),
+                                          ife(bin_("==", N("k"), I(0)), bin_("/", I(1), I(0)),
+                                              ife(bin_("==", N("k"), I(1)), ix1(lst([I(1)]), I(5)),
+                                                  ife(bin_("==", N("k"), I(2)), bin_("+", I(1), St("a")),
+                                                      ife(bin_("==", N("k"), I(3)), bin_("+", N("nosuch"), I(1)),
+                                                          ife(bin_("==", N("k"), I(4)), call("aton", St("zz")), call("boom", I(1))))))))))
+BADGEN = assign("badgen", fn(["k"], block([y(I(1)), assign("gq", I(3)), call("boom", I(0), N("k")), y(I(2))])))
+OUTERGEN = assign("outergen", fn(["k"], fr(["x"], [call("badgen", N("k"))], y(N("x")))))
+
+
+def failing_items():
+    """(name, item, twin items: the global assignments the failing item completed)"""
+    out = []
+    for k, cls in enumerate(["zerodiv", "index", "type", "nil", "conversion", "arity"]):
+        out.append(("top-" + cls, block([assign("ga", I(5)), assign("gb", call("boom", I(0), I(k))), assign("gc", I(7))]), [assign("ga", I(5))]))
+        out.append(("depth3-" + cls, block([assign("ga", I(6)), call("boom", I(3), I(k))]), [assign("ga", I(6))]))
+    out.append(("loop-body", fr(["i"], [call("fromto", I(0), I(3))], block([assign("gl", N("i")), iff(bin_("==", N("i"), I(1)), call("boom", I(1), I(1)))])),
+                [assign("i", I(1)), assign("gl", I(1))]))
+    out.append(("suspended-generator", fr(["i"], [call("badgen", I(0))], assign("gw", N("i"))), [assign("i", I(1)), assign("gw", I(1))]))
+    out.append(("generator-in-generator", fr(["i"], [call("outergen", I(2))], assign("gw", N("i"))), [assign("i", I(1)), assign("gw", I(1))]))
+    out.append(("in-call-in-loop-in-fn", block([assign("ga", I(9)), call("lf")]), [assign("ga", I(9))]))
+    out.append(("read-error", block([assign("ga", I(4)), call("read")]), [assign("ga", I(4))]))
+    out.append(("while-cond-type", block([assign("ga", I(3)), wh(I(1), I(2))]), [assign("ga", I(3))]))
+    out.append(("parse-lexer", {"perr": True, "src": "ga = 1 $ 2"}, []))
+    out.append(("parse-parser", {"perr": True, "src": "ga = 1 +"}, []))
+    out.append(("parse-unbalanced", {"perr": True, "src": "ga = (1"}, []))
+    out.append(("parse-unbalanced-array", {"perr": True, "src": "ga = [1, 2"}, []))
+    return out
+
+
+def good_items(rnd):
+    """statements that define and use session state; later ones read what earlier ones wrote"""
+    return [assign("sa", I(rnd.randint(1, 9))), assign("sb", bin_("+", N("sa"), I(1))), assign("sf", fn(["n"], bin_("+", N("n"), N("sa")))),
+            call("sf", I(2)), assign("sacc", lst([])), fr(["q"], [call("fromto", I(0), I(3))], assign("sacc", bin_("+", N("sacc"), lst([call("sf", N("q"))])))),
+            N("sacc"), lst([N("sa"), N("sb"), N("ga"), N("gl"), N("gw"), N("gq")]) if False else lst([N("sa"), N("sb")]),
+            call("write", call("toa", lst([N("sa"), N("sb"), N("sacc")]))), fr(["q"], [call("elems", N("sacc"))], N("q"))]
+
+
+STATE_PROBE = [bin_("==", N(v), N(v)) for v in []]
+
+
+def c08_families(tier, seed, ids=None):
+    ids = ids or Ids()
+    rnd = random.Random(seed)
+    fails = failing_items()
+    prelude = [BOOM, BADGEN, OUTERGEN, assign("lf", fn([], fr(["z"], [call("fromto", I(0), I(2))], call("boom", I(2), I(0))))),
+               assign("ga", I(0)), assign("gb", I(0)), assign("gc", I(0)), assign("gl", I(0)), assign("gw", I(0)), assign("gq", I(0)), assign("i", I(0))]
+    probe = call("toa", lst([N("ga"), N("gb"), N("gc"), N("gl"), N("gw"), N("gq"), N("i")]))
+    ss, twins = [], []
+    n = 60 if tier == "quick" else 2500
+    pairs = []
+    for c in range(n):
+        good = good_items(rnd)
+        k = rnd.choice([1, 1, 2, 3])
+        if c < len(fails):
+            chosen = [fails[c]] + [rnd.choice(fails) for _ in range(k - 1)]
+        else:
+            chosen = [rnd.choice(fails) for _ in range(k)]
+        adjacent = rnd.random() < 0.3
+        pos = sorted(rnd.sample(range(1, len(good)), min(k, len(good) - 1)))
+        if adjacent:
+            pos = [pos[0]] * len(pos)
+        items, titems = list(prelude), list(prelude)
+        gi = 0
+        for idx, g in enumerate(good):
+            for p_i, p in enumerate(pos):
+                if p == idx:
+                    f = chosen[p_i]
+                    items.append(f[1])
+                    titems.extend(f[2] if f[2] else [I(0)])
+                    items.append(probe)
+                    titems.append(probe)
+            items.append(g)
+            titems.append(g)
+        items.append(probe)
+        titems.append(probe)
+        s1 = mk(ids, items, {"fails": [f[0] for f in chosen], "pos": pos})
+        s2 = mk(ids, titems, {"twin_of": s1["id"]})
+        ss.append(s1)
+        twins.append(s2)
+        pairs.append((s1, s2))
+    out = [("sessions with injected failures", ss, ("value", "residue")), ("twin sessions (failure replaced by its completed assignments)", twins, ("value", "residue"))]
+    rs = gens.random_sessions(40 if tier == "quick" else 2000, seed, "c08", p_ill=0.15, first_id=700000)
+    out.append(("random sessions with type confusion (errors in the middle)", rs, ("value", "residue")))
+    return out, pairs
+
+
+def c08_nontrivial(v):
+    return "fails" in v.session.get("meta", {}) or "twin_of" in v.session.get("meta", {})
+
+
+c08_rule = ("sessions of 20+ items on one VM: state-threading good statements with 1-3 failing items injected (every error class at top level and at call depth 3, "
+            "in a loop body, inside a suspended generator, inside a generator nested in a generator, in a call inside a loop inside a function, read error, "
+            "non-boolean while condition, lexer/parser/unbalanced parse errors), adjacent failures included; a probe of all globals follows every failure; each session has a twin "
+            "where the failing item is replaced by the global assignments it completed; the specification's observations after the failure must be equal in both "
+            "(spec theorem) and the real runs must match the specification in both; residue is compared after every item")
+
+
+# =============================================================== C09: no residue
+
+def c09_forms():
+    return [("expr", bin_("+", bin_("*", N("gx"), I(2)), I(1))), ("assign", assign("t", bin_("+", N("gx"), I(1)))),
+            ("if-const", iff(Bo(True), I(5))), ("if-computed", iff(bin_("<", N("gx"), I(999)), I(5))), ("if-false", iff(bin_(">", N("gx"), I(999)), I(5))),
+            ("ifelse", ife(bin_("<", N("gx"), I(2)), I(5), St("a"))), ("while", wh(bin_("<", N("gx"), I(0)), I(1))),
+            ("for", fr(["w"], [call("fromto", I(0), I(2))], N("w"))), ("for2", fr(["w", "u"], [call("fromto", I(0), I(2)), call("fromto", I(0), I(3))], N("u"))),
+            ("block", block([I(8), bin_("+", N("gx"), I(9))])), ("yield", y(bin_("+", N("gx"), I(1)))), ("fnlit", fn([], I(1))),
+            ("call", call("id", N("gx"))), ("list", lst([N("gx"), bin_("+", N("gx"), I(1))])), ("index", ix1(lst([I(1), I(2)]), bin_("-", N("gx"), N("gx")))),
+            ("if-in-if", iff(bin_("<", N("gx"), I(999)), iff(bin_("<", N("gx"), I(998)), I(1)))),
+            ("nested-for", fr(["w"], [call("fromto", I(0), I(2))], fr(["u"], [call("fromto", I(0), I(2))], bin_("+", N("w"), N("u")))))]
+
+
+def counted_while(k, body, var="kk"):
+    return [assign(var, I(0)), wh(bin_("<", N(var), I(k)), block([assign(var, bin_("+", N(var), I(1))), body]))]
+
+
+def c09_families(tier, seed, ids=None):
+    ids = ids or Ids()
+    forms = c09_forms()
+    base = [IDF, assign("gx", I(1))]
+    used, disc, pairs = [], [], []
+    for name, f in forms:
+        used.append(mk(ids, base + [f, block([f, I(0)]), block([I(0), f]), assign("g", fn([], f)), call("g"), assign("gb", fn([], block([f, I(0)]))), call("gb"),
+                                    assign("gr", fn([], block([ret(f) if f["t"] not in ("assign", "if", "ifelse", "while", "for", "block", "yield") else f, I(0)]))), call("gr"), I(1)], {"form": name}))
+        disc.append(mk(ids, base + [f, block([f, I(0)]), assign("g", fn([], f)), call("g"), I(1)], {"form": name}, mode="discard"))
+        for (n1, n2) in ((3, 6), (200, 400)):
+            p = []
+            for n in (n1, n2):
+                for lname, loop in (("while-used", counted_while(n, f)), ("while-disc", [block(counted_while(n, f) + [I(0)])]),
+                                    ("for-used", [fr(["q"], [call("fromto", I(0), I(n))], f)]), ("for-disc", [block([fr(["q"], [call("fromto", I(0), I(n))], f), I(0)])]),
+                                    ("fn-while", [assign("lw", fn([], block(counted_while(n, f)))), call("lw")]),
+                                    ("fn-for", [assign("lq", fn([], fr(["q"], [call("fromto", I(0), I(n))], f))), call("lq")])):
+                    if tier == "quick" and n1 == 200 and lname not in ("while-disc", "for-used"):
+                        continue
+                    s = mk(ids, base + loop + [I(1)], {"form": name, "loop": lname, "n": n, "pairkey": "%s/%s/%d" % (name, lname, n1)})
+                    p.append(s)
+            pairs += p
+    early = []
+    retv = lst([N("i"), N("j")])
+    for depth in (1, 2, 3):
+        inner = iff(bin_("==", N("j"), I(1)), ret(retv))
+        loop = fr(["j"], [call("fromto", I(0), I(3))], inner)
+        for d in range(depth - 1):
+            loop = fr(["i" if d == 0 else "h"], [call("fromto", I(0), I(3))], loop)
+        if depth == 1:
+            loop = fr(["j"], [call("fromto", I(0), I(3))], iff(bin_("==", N("j"), I(1)), ret(N("j"))))
+        early.append(mk(ids, [assign("i", I(0)), loop, I(0), loop, I(0)], {"early": "top", "depth": depth}))
+        early.append(mk(ids, [assign("f", fn([], block([assign("i", I(0)), loop]))), call("f"), call("f"), I(0), fr(["z"], [call("fromto", I(0), I(2))], call("f")), I(0)], {"early": "fn", "depth": depth}))
+        early.append(mk(ids, [assign("i", I(0)), assign("gg", fn([], block([y(I(1)), y(I(2)), y(I(3))]))),
+                              assign("f", fn([], fr(["a", "b"], [call("gg"), call("gg")], fr(["j"], [call("gg")], iff(bin_("==", N("j"), I(2)), ret(bin_("+", N("a"), N("j")))))))), call("f"), call("f"), I(0)], {"early": "multi", "depth": depth}))
+    long_ = []
+    rnd = random.Random(seed)
+    for c in range(3 if tier == "quick" else 60):
+        items = list(base)
+        for _ in range(50):
+            name, f = rnd.choice(forms)
+            items.append(rnd.choice([f, block([f, I(0)]), fr(["q"], [call("fromto", I(0), I(3))], f)]))
+        long_.append(mk(ids, items, {"long": c}))
+    out = [("statement forms: used, mid-block, tail, returning", used, ("value", "residue")),
+           ("statement forms: file mode (discarded)", disc, ("value", "residue"), "discard"),
+           ("loops with bodies ending in each form, n and 2n iterations", pairs, ("value", "residue")),
+           ("early return from nested loops", early, ("value", "residue")),
+           ("sessions of 50 statements", long_, ("value", "residue"))]
+    return out, pairs
+
+
+def c09_nontrivial(v):
+    return any(n["t"] in ("while", "for", "call") for it in v.session["items"] if not it.get("perr") for n in walk(it))
+
+
+c09_rule = ("17 statement forms in used / mid-block / block-tail / function-tail / returning / file-mode positions; while and for loops (top level, discarded, inside functions) "
+            "whose body ends in each form with n and 2n iterations (3/6 and 200/400); early return from for loops nested 1-3 deep at top level, inside functions, "
+            "under multi-iterator loops; sessions of 50 statements. After every item the real (sp, frames, closures, live contexts, ip gap) must be zero as CalcSem's NoResidue says, "
+            "and for loop pairs whose specified continuation depth is equal the real peak stack pointer must be equal. non-trivial = contains a loop or a call")
+
+
+# =============================================================== C10: values are immutable
+
+def c10_ops():
+    """(name, item builder over variable names)"""
+    V = ["va", "vb", "vc", "vd"]
+    ops = []
+    for t in V:
+        for s in V:
+            ops.append(("slice01", lambda t=t, s=s: assign(t, ix2(N(s), I(0), I(1)))))
+            ops.append(("slice12", lambda t=t, s=s: assign(t, ix2(N(s), I(1), I(2)))))
+            ops.append(("slice02", lambda t=t, s=s: assign(t, ix2(N(s), I(0), I(2)))))
+            ops.append(("append", lambda t=t, s=s: assign(t, bin_("+", N(s), lst([I(9)])))))
+            ops.append(("appendslice", lambda t=t, s=s: assign(t, bin_("+", ix2(N(s), I(0), I(1)), lst([I(8), I(7)])))))
+            ops.append(("cat", lambda t=t, s=s: assign(t, call("cat", N(s)))))
+            ops.append(("nest", lambda t=t, s=s: assign(t, lst([N(s), N(t)]))))
+            ops.append(("computed", lambda t=t, s=s: assign(t, lst([ix1(N(s), I(0)), bin_("+", un("#", N(s)), I(1))]))))
+            ops.append(("concat", lambda t=t, s=s: assign(t, bin_("+", N(s), N(t)))))
+        ops.append(("iter", lambda t=t: fr(["q"], [call("elems", N(t))], N("q"))))
+        ops.append(("capture", lambda t=t: assign("kcl", call("mkcl", N(t)))))
+        ops.append(("lit", lambda t=t: assign(t, call("lit"))))
+        ops.append(("litloop", lambda t=t: fr(["q"], [call("fromto", I(0), I(2))], assign(t, bin_("+", call("lit"), lst([N("q")]))))))
+    return ops
+
+
+def c10_families(tier, seed, ids=None):
+    ids = ids or Ids()
+    rnd = random.Random(seed)
+    prelude = [assign("cat", fn(["x"], bin_("+", N("x"), lst([I(7)])))), assign("lit", fn([], lst([I(1), I(2), I(3)]))),
+               assign("reclit", fn(["n"], ife(bin_("==", N("n"), I(0)), lst([I(4), I(5)]), bin_("+", call("reclit", bin_("-", N("n"), I(1))), lst([I(6)]))))),
+               assign("mkcl", fn(["a"], fn([], N("a")))), assign("kcl", call("mkcl", lst([I(0)]))),
+               assign("va", lst([I(1), I(2), I(3), I(4)])), assign("vb", lst([I(5), I(6)])), assign("vc", lst([lst([I(1)]), lst([I(2), I(3)])])), assign("vd", lst([]))]
+    sprelude = [assign("cat", fn(["x"], bin_("+", N("x"), St("z")))), assign("lit", fn([], St("lmn"))),
+                assign("reclit", fn(["n"], ife(bin_("==", N("n"), I(0)), St("rs"), bin_("+", call("reclit", bin_("-", N("n"), I(1))), St("t"))))),
+                assign("mkcl", fn(["a"], fn([], N("a")))), assign("kcl", call("mkcl", St("k"))),
+                assign("va", St("abcd")), assign("vb", St("ef")), assign("vc", St("g")), assign("vd", St(""))]
+    probe = call("toa", lst([N("va"), N("vb"), N("vc"), N("vd"), call("kcl"), call("lit"), call("reclit", I(2))]))
+    ops = c10_ops()
+    ss = []
+    if tier == "quick":
+        seqs = [[rnd.choice(ops) for _ in range(rnd.randint(2, 5))] for _ in range(250)]
+    else:
+        seqs = [[a, b] for a in ops for b in ops if hash((a[0], b[0], seed)) % 6 == 0]
+        seqs += [[rnd.choice(ops) for _ in range(rnd.randint(3, 12))] for _ in range(6000)]
+    for k, seq in enumerate(seqs):
+        strs = k % 3 == 2
+        items = list(sprelude if strs else prelude) + [probe]
+        ok = True
+        for name, b in seq:
+            it = b()
+            if strs and name in ("nest", "computed", "append", "appendslice", "litloop", "iter"):
+                if name == "append":
+                    it = assign(it["tgt"]["n"], bin_("+", it["e"]["l"], St("9")))
+                elif name == "iter":
+                    pass
+                else:
+                    continue
+            items += [it, probe]
+        ss.append(mk(ids, items, {"ops": [n for n, _ in seq], "strings": strs}))
+    return [("operation histories over values that share structure", ss, ("value",))]
+
+
+def c10_nontrivial(v):
+    return len(v.session.get("meta", {}).get("ops", [])) >= 2
+
+
+c10_rule = ("histories of 2-12 operations over four variables holding arrays (incl. nested) or strings: slices [0:1] [1:2] [0:2], slice of slice, append, append to a slice, "
+            "concatenation, passing to a concatenating function, nesting, literal with computed elements, iteration with elems, capture in a closure, a literal-returning "
+            "function called in a loop and recursively; after every operation toa() of all four variables, of the captured value and of the literals is compared with the "
+            "specification (values are mathematical there). non-trivial = at least two operations (structure is shared before the last one)")
+
+
+# =============================================================== C12: an expression means the same wherever it is written
+
+def c12_families(tier, seed, ids=None):
+    ids = ids or Ids()
+    e1 = gens.exprs_depth1()
+    e2 = gens.exprs_depth2()
+    if tier == "quick":
+        e1 = e1[seed % 5::5]
+        e2 = e2[seed % 9::9]
+    out = [("expressions depth 1 x contexts", gens.context_sessions(e1, first_id=1), ("value",)),
+           ("expressions depth 2 x contexts", gens.context_sessions(e2, first_id=1000000), ("value",))]
+    ids = Ids(2000000)
+    # rewrite pairs of the property text
+    rw = []
+    inits = {"int": I(4), "float": Fl(5, 1), "string": St("s"), "nil": None, "array": lst([I(1)])}
+    for tname, init in inits.items():
+        for scope in ("global", "local"):
+            variants = {"x=x+1": [assign("x", bin_("+", N("x"), I(1)))], "x=1+x": [assign("x", bin_("+", I(1), N("x")))],
+                        "t=x;x=t+1": [assign("t", N("x")), assign("x", bin_("+", N("t"), I(1)))]}
+            for vname, stmts in variants.items():
+                pre = [assign("x", init)] if init is not None else []
+                if scope == "global":
+                    items = pre + stmts + [N("x")]
+                else:
+                    items = [assign("f", fn([], block(pre + stmts + [N("x")]))), call("f")]
+                rw.append(mk(ids, items, {"rewrite": "inc", "type": tname, "scope": scope, "variant": vname}))
+    es = gens.ATOMS + gens.SMALL + [fn([], I(1)), lst([N("x"), lst([N("x")])]), call("id", N("a")), bin_("-", N("x"), Fl(1, 1))]
+    for op in props_allops():
+        for e in es:
+            rw.append(mk(ids, gens.PRELUDE + [bin_(op, e, e)], {"rewrite": "e op e", "op": op, "e": pe(e), "variant": "direct"}))
+            rw.append(mk(ids, gens.PRELUDE + [assign("t", e), bin_(op, N("t"), N("t"))], {"rewrite": "e op e", "op": op, "e": pe(e), "variant": "via t"}))
+            rw.append(mk(ids, gens.PRELUDE + [assign("g", fn([], bin_("+", bin_(op, e, e), I(0)) if op in ("+", "-", "*") else bin_(op, e, e))), call("g")], {"rewrite": "e op e", "op": op, "e": pe(e), "variant": "fn"}))
+    conds = [Bo(True), Bo(False), bin_("<", N("x"), I(2)), bin_("==", N("a"), N("a")), I(1), N("u"), St("a"), lst([]), bin_("+", N("x"), I(1)), call("f", I(1))]
+    A, B = bin_("+", N("x"), I(10)), St("else")
+    for c in conds:
+        for wrap in ("top", "mid", "fn", "loop"):
+            for neg in (True, False):
+                st = ife(un("!", c), A, B) if neg else ife(c, B, A)
+                if wrap == "top":
+                    items = [st]
+                elif wrap == "mid":
+                    items = [block([st, I(0)])]
+                elif wrap == "fn":
+                    items = [assign("g", fn([], st)), call("g")]
+                else:
+                    items = [fr(["q"], [call("fromto", I(0), I(2))], st)]
+                rw.append(mk(ids, gens.PRELUDE + items, {"rewrite": "if !c", "c": pe(c), "wrap": wrap, "neg": neg}))
+        for form in ("if", "while", "ifelse", "if-mid", "while-mid", "if-fn-mid", "if-not"):
+            body = {"if": iff(c, I(5)), "while": assign("g", fn([], wh(c, ret(I(5))))), "ifelse": ife(c, I(5), I(6)), "if-mid": block([iff(c, I(5)), I(0)]),
+                    "while-mid": assign("g", fn([], block([wh(c, ret(I(5))), I(0)]))), "if-fn-mid": assign("g", fn([], block([iff(c, I(5)), I(0)]))), "if-not": block([iff(un("!", c), I(5)), I(0)])}[form]
+            items = [body] + ([call("g")] if body["t"] == "assign" else [])
+            rw.append(mk(ids, gens.PRELUDE + items, {"rewrite": "condition type", "c": pe(c), "form": form}))
+    out.append(("rewrite pairs: increment forms, e op e, if !c, condition types", rw, ("value",)))
+    return out
+
+
+def props_allops():
+    return ["+", "-", "*", "/", "%", "<", ">", "<=", ">=", "==", "!=", "&", "|", "&&", "||", "<<", ">>"]
+
+
+def c12_nontrivial(v):
+    return True
+
+
+c12_rule = ("every expression of depth <= 2 over nine atoms (int, global, float, string, array literal, call, undefined name, bool, array variable) x 30 embedding contexts "
+            "(used / discarded / mid-block / function tail / return / call argument / assignment / array element / operand / condition / loop bodies / iterator / yield / write / indexed); "
+            "the rewrite pairs of the property: x=x+1 | x=1+x | t=x;x=t+1 over int/float/string/nil/array x global/local, e op e | t=e;t op t for all 17 operators, "
+            "if !c A else B | if c B else A in four positions, boolean and non-boolean conditions in seven positions. Each placement must produce the specified observation, "
+            "hence placements of one expression agree with each other; all sessions distinct by construction")
+
+
+# =============================================================== C17: built-ins keep their contracts
+
+def c17_families(tier, seed, ids=None):
+    ids = ids or Ids()
+    rnd = random.Random(seed)
+    out = []
+    vals = [I(0), I(7), I(-3), I(1000), I(-1000), I(123456789), I(1 << 20), Fl(3, 1), Fl(1, 3), Fl(5, 2, True), Fl(0, 0), bin_("/", Fl(1, 0), Fl(0, 0)), bin_("/", Fl(0, 0), Fl(0, 0)),
+            Bo(True), Bo(False), St(""), St("ab"), St("a b\n"), lst([]), lst([I(1), Fl(1, 1), St("x"), Bo(True)]), lst([lst([I(1)]), lst([])]), N("id"), lst([N("id")])]
+    ss = []
+    for v in vals:
+        ss.append(mk(ids, [props_IDF(), call("toa", v), call("write", v), call("write", call("toa", v)), bin_("==", call("toa", call("toa", v)), call("toa", v)), un("#", call("toa", v))], {"toa": pe(v)}))
+    out.append(("toa renders what write prints", ss, ("value",)))
+    rt = []
+    chunks = [(-1000, -500), (-500, 0), (0, 500), (500, 1001)] if tier == "thorough" else [(-40, 41)]
+    for lo, hi in chunks:
+        rt.append(mk(ids, [assign("bad", lst([])), fr(["n"], [call("fromto", I(lo), I(hi))], iff(bin_("!=", call("aton", call("toa", N("n"))), N("n")), assign("bad", bin_("+", N("bad"), lst([N("n")]))))), N("bad")], {"roundtrip": [lo, hi]}))
+    pw = [(1 << k) + d for k in range(1, 30) for d in (-1, 0, 1)]
+    rt.append(mk(ids, [assign("bad", lst([])), fr(["n"], [call("elems", lst([I(p) for p in pw] + [I(-p) for p in pw]))], iff(bin_("!=", call("aton", call("toa", N("n"))), N("n")), assign("bad", bin_("+", N("bad"), lst([N("n")]))))), N("bad")], {"roundtrip": "powers"}))
+    fls = [Fl(n, e, neg) for n in (1, 3, 5, 7, 100, 1001) for e in (0, 1, 2, 3) for neg in (False, True)]
+    rt.append(mk(ids, [assign("bad", lst([])), fr(["n"], [call("elems", lst(fls))], iff(bin_("!=", call("aton", call("toa", N("n"))), N("n")), assign("bad", bin_("+", N("bad"), lst([N("n")]))))), N("bad")], {"roundtrip": "floats"}))
+    for s in ["12", "-7", "1.5", "0.25", "-3.0", "zz", "", "12a", " 1", "007", "1000", "1.", ".5", "--1", "1e3", "0x10", "1_0", "+5", "Inf", "NaN"]:
+        rt.append(mk(ids, [call("aton", St(s))], {"aton": s}))
+    out.append(("aton(toa(n)) == n and aton forms", rt, ("value",)))
+    ft = []
+    for a in range(-3, 5):
+        for b in range(-3, 5):
+            ft.append(mk(ids, [assign("acc", lst([])), fr(["q"], [call("fromto", I(a), I(b))], assign("acc", bin_("+", N("acc"), lst([N("q")])))), N("acc")], {"fromto": [a, b]}))
+    for a, b in [(Fl(1, 1), I(3)), (I(0), Fl(5, 1)), (St("a"), I(3)), (I(1), St("b")), (N("nn"), I(2)), (lst([]), I(1)), (Bo(True), Bo(False))]:
+        ft.append(mk(ids, [assign("acc", lst([])), fr(["q"], [call("fromto", a, b)], assign("acc", bin_("+", N("acc"), lst([N("q")])))), N("acc")], {"fromto": [pe(a), pe(b)]}))
+    seqs = [lst([]), lst([I(5)]), lst([I(5), St("x"), lst([I(1)])]), lst([I(1), I(2), I(3)]), St(""), St("a"), St("abc"), I(3), N("nn"), Bo(True), N("id"), Fl(1, 1)]
+    for x in seqs:
+        for g in ("elems", "indices"):
+            ft.append(mk(ids, [props_IDF(), assign("acc", lst([])), fr(["q"], [call(g, x)], assign("acc", bin_("+", N("acc"), lst([N("q")])))), N("acc")], {g: pe(x)}))
+    for c in [call("toa"), call("toa", I(1), I(2)), call("aton"), call("aton", I(1)), call("aton", St("1"), St("2")), call("fromto", I(1)), call("fromto"), call("elems"), call("indices", I(1), I(2)),
+              call("write"), call("write", I(1), I(2)), call("read", I(1))]:
+        ft.append(mk(ids, [c, fr(["q"], [c], N("q")), I(1)], {"arity": pe(c)}))
+    out.append(("fromto / elems / indices / argument errors", ft, ("value",)))
+    rd = []
+    inputs = [[], ["a\n"], ["a\n", "b\n"], ["l1\n", "l2\n", "l3\n"], ["\n", "x\n"], ["1\n", "2\n", "3\n", "4\n", "5\n"], ["a\n", "b"], ["only"]]
+    for inp in inputs:
+        for nreads in range(0, 5):
+            for inter in ("plain", "writes", "error", "in-function", "in-loop"):
+                reads = []
+                for k in range(nreads):
+                    if inter == "plain":
+                        reads.append(call("read"))
+                    elif inter == "writes":
+                        reads += [call("write", St("w")), call("read")]
+                    elif inter == "error":
+                        reads += [call("read"), bin_("/", I(1), I(0))]
+                    elif inter == "in-function":
+                        reads.append(call("rd"))
+                    else:
+                        pass
+                if inter == "in-loop":
+                    reads = [assign("acc", lst([])), fr(["q"], [call("fromto", I(0), I(nreads))], assign("acc", bin_("+", N("acc"), lst([call("read")])))), N("acc")]
+                rd.append(mk(ids, [assign("rd", fn([], bin_("+", St(">"), call("read"))))] + reads + [I(1)], {"read": [inp, nreads, inter]}, stdin=inp))
+    if tier == "quick":
+        rd = rnd.sample(rd, 80)
+    out.append(("sequences of read() against piped input", rd, ("value",)))
+    return out
+
+
+def props_IDF():
+    return IDF
+
+
+def c17_nontrivial(v):
+    m = v.session.get("meta", {})
+    return not ("read" in m and m["read"][1] < 2)
+
+
+c17_rule = ("toa/write over 23 values of every type (ints to 2^20, dyadic floats, signed zero, Inf, NaN, strings, nested arrays, functions); aton(toa(n)) == n for all ints in "
+            "-1000..1000, +-2^k+-1 for k < 30 and 48 dyadic floats, 20 aton spellings; fromto(a,b) for all -3 <= a,b <= 4 plus float/string/nil/array/bool arguments; "
+            "elems/indices over 12 arguments of every type; arity errors of every builtin; 0-4 read() calls (plain, interleaved with writes, with errors, inside a function, inside a loop) "
+            "against 8 piped inputs of 0-5 lines. non-trivial = not a read vector with fewer than two reads")
+
+
+# =============================================================== C19: runtime error reports
+
+def c19_families(tier, seed, ids=None):
+    ids = ids or Ids()
+    rnd = random.Random(seed)
+    errs = {"zerodiv": lambda x: bin_("/", x, I(0)), "index": lambda x: ix1(lst([x, I(2)]), I(5)), "type": lambda x: bin_("+", x, St("a")),
+            "nil": lambda x: bin_("+", N("nosuch"), x), "conversion": lambda x: call("aton", St("zz")), "arity": lambda x: call("two", x),
+            "mod0": lambda x: bin_("%", x, I(0)), "cond": lambda x: iff(x, I(1)), "calltype": lambda x: call("notfn", x), "nilassign": lambda x: assign("t", N("nosuch")),
+            "long-operand": lambda x: bin_("+", lst([x, I(1), I(2), I(3), I(4), I(5), I(6), I(7), I(8), I(9), I(10), I(11)]), I(1)),
+            "deep-expr": lambda x: bin_("+", bin_("*", bin_("+", x, I(1)), I(2)), bin_("/", x, bin_("-", x, x))), "slice": lambda x: ix2(St("abc"), x, I(9)), "unary": lambda x: un("#", x)}
+    base = [assign("two", fn(["a", "b"], N("a"))), assign("notfn", I(3))]
+    ss = []
+    for ename, mkE in errs.items():
+        e = mkE(N("q"))
+        e0 = mkE(I(7))
+        ss.append(mk(ids, base + [e0], {"err": ename, "where": "top"}))
+        ss.append(mk(ids, base + [assign("f", fn(["q", "n"], ife(bin_("==", N("n"), I(0)), e, call("f", bin_("+", N("q"), I(1)), bin_("-", N("n"), I(1)))))), call("f", I(7), I(0)), call("f", I(7), I(1)), call("f", I(7), I(3))], {"err": ename, "where": "depth"}))
+        ss.append(mk(ids, base + [assign("h", fn(["cb", "x"], call("cb", N("x")))), assign("bad", fn(["q"], e)), call("h", N("bad"), I(7))], {"err": ename, "where": "param-holding-fn"}))
+        ss.append(mk(ids, base + [assign("mkf", fn(["q"], fn(["b"], e))), assign("dv", call("mkf", I(9))), call("dv", I(0))], {"err": ename, "where": "closure"}))
+        ss.append(mk(ids, base + [assign("f", fn(["q"], block([assign("q", bin_("+", N("q"), I(100))), e]))), call("f", I(1))], {"err": ename, "where": "param-reassigned"}))
+        ss.append(mk(ids, base + [assign("g", fn(["q"], fr(["i"], [call("fromto", I(0), I(3))], iff(bin_("==", N("i"), I(1)), e)))), call("g", I(13))], {"err": ename, "where": "loop-body"}))
+        ss.append(mk(ids, base + [assign("f", fn(["q"], block([y(I(1)), e, y(I(2))]))), assign("g", fn(["x"], fr(["i"], [call("f", I(5))], call("write", bin_("+", N("i"), N("x")))))), assign("h", fn([], call("g", I(13)))), call("h")], {"err": ename, "where": "in-generator"}))
+        ss.append(mk(ids, base + [assign("f", fn(["q"], block([y(N("q")), e]))), assign("m", fn(["it"], fr(["e"], [call("it", I(4))], y(bin_("*", N("e"), I(2)))))),
+                                  assign("top", fn(["z"], fr(["v"], [call("m", N("f"))], N("v")))), call("top", I(8))], {"err": ename, "where": "gen-of-gen"}))
+        ss.append(mk(ids, base + [assign("f", fn(["q"], block([y(I(1)), e]))), fr(["i"], [call("f", I(3))], N("i"))], {"err": ename, "where": "top-level-gen"}))
+        ss.append(mk(ids, base + [assign("f", fn(["q"], block([y(I(1)), y(I(2))]))), assign("g", fn(["q"], fr(["i"], [call("f", I(3))], iff(bin_("==", N("i"), I(2)), e)))), call("g", I(6))], {"err": ename, "where": "body-while-generator-suspended"}))
+    if tier == "quick":
+        ss = [s for i, s in enumerate(ss) if (i + seed) % 3 == 0]
+    out = [("every error class x call depth / function-valued parameter / closure / reassigned parameter / loop body / generator / generator of generator", ss, ("value", "report"))]
+    rs = gens.random_sessions(60 if tier == "quick" else 3000, seed, "c19", p_ill=0.2, first_id=800000)
+    out.append(("random sessions with type confusion", rs, ("value", "report")))
+    return out
+
+
+def c19_nontrivial(v):
+    m = v.session.get("meta", {})
+    return m.get("where", "top") != "top"
+
+
+c19_rule = ("14 failing operations (every error class; also modulo by zero, non-boolean condition, calling a non-function, assigning nil, operand longer than 20 characters, "
+            "failure deep inside an expression, slice bound, unary) x 10 dynamic positions (top level, call depth 0/1/3, through a parameter holding a function, through a closure, "
+            "with a reassigned parameter, in a loop body, inside a generator, inside a generator of a generator, in a top-level generator, in the body while a generator is suspended); "
+            "the parsed report must have the specified class, an opcode of the failing operation's family, the specified operand values in order, and for the failing context and "
+            "each ancestor the active calls innermost first with the names used at the call sites and the current parameter values. non-trivial = failure below top level")
